@@ -61,6 +61,30 @@ func init() {
 		}
 		return fmt.Sprintf("%d %d %d", h1, n.VerifRaw().Hash, n.VerifHashFromScratch())
 	}
+	// the property-level reading of mhash: incremental hash field == from-scratch value, Hash() is stable, and
+	// the successor rebuilt through FromSquares is Equal with the same Hash()
+	opTable["mhashok"] = func(s *Session, a []string) string {
+		p := decPos(a[0])
+		_ = p.Hash()
+		n, err := p.Move(decMove(a[1]))
+		if err != nil {
+			return "err"
+		}
+		if n.VerifRaw().Hash != n.VerifHashFromScratch() {
+			return "incremental-hash-differs-from-scratch"
+		}
+		if n.Hash() != n.Hash() {
+			return "unstable-hash"
+		}
+		q, err := rebuild(n)
+		if err != nil {
+			return "rebuild-err"
+		}
+		if !n.Equal(q) || n.Hash() != q.Hash() {
+			return "rebuilt-position-differs"
+		}
+		return "ok"
+	}
 	opTable["trans"] = func(s *Session, a []string) string {
 		p := decPos(a[0])
 		pa, ok := applySeq(p, a[1])
@@ -139,6 +163,7 @@ func genC08(c *Ctx) {
 				c.Count("mhash.pass")
 			}
 			c.Emit("mhash " + tok + " " + encMove(m))
+			c.Emit("mhashok " + tok + " " + encMove(m))
 			if m.IsSlide() {
 				c.Count("mhash.slide")
 			} else {
